@@ -17,6 +17,8 @@
 (*         the requested peer / of the connect-back peer, sizes of         *)
 (*         _expected_connection_futures and _expected_response_futures,    *)
 (*         open transports, attempt tasks still pending                    *)
+(*   ret   the same fields as snap, taken at the instant the awaited call   *)
+(*         ended (present in the record that reports the outcome)          *)
 (*   noobs TRUE: the next stimulus followed without settling; nothing was  *)
 (*         observed (sub-slot schedules, validated with TraceFine.cfg)     *)
 (* First record: init [mode, typ, user, given, sendfail, badport].         *)
@@ -31,10 +33,10 @@ EXTENDS PeerConnect, Sequences, Json, IOUtils
 
 Traces == JsonDeserialize(IOEnv.TRACE_FILE)
 
-VARIABLES tid, l, phase, reported, bReported, obs, marks
+VARIABLES tid, l, phase, reported, bReported, obs, ret, marks
 
-tvars == <<vars, tid, l, phase, reported, bReported, obs, marks>>
-auxVars == <<tid, reported, bReported, obs, marks>>
+tvars == <<vars, tid, l, phase, reported, bReported, obs, ret, marks>>
+auxVars == <<tid, reported, bReported, obs, ret, marks>>
 
 T == Traces[tid]
 Rec == T[l]
@@ -54,6 +56,7 @@ TInit ==
   /\ phase = "stim"
   /\ reported = FALSE /\ bReported = FALSE
   /\ obs = EmptyObs
+  /\ ret = EmptyObs
   /\ marks = {}
 
 IsEv(e) == phase = "stim" /\ l <= Len(T) /\ Rec.ev = e
@@ -130,12 +133,13 @@ UsableObs(rc) ==
 OutcomeAgrees ==
   IF pcO \in OTerm /\ ~reported
     THEN /\ reported' = TRUE
+         /\ ret' = (IF "ret" \in DOMAIN Rec THEN Rec.ret ELSE ret)   \* what the caller finds at the very instant the awaited call ends (a record without an outcome has none: the CASE below then cuts the path)
          /\ CASE pcO = "returned"  -> /\ Rec.res = "conn"
                                       /\ Rec.rc.inc = (winner = "p")
                                       /\ UsableObs(Rec.rc)
               [] pcO = "raised"    -> Rec.res = "exc" /\ Rec.cls = "PeerConnectionError"
               [] pcO = "cancelled" -> Rec.res = "cancelled"
-    ELSE /\ reported' = reported
+    ELSE /\ reported' = reported /\ ret' = ret
          /\ Rec.res = "none"
 
 BackAgrees ==
@@ -177,14 +181,14 @@ KF_AddrWaitNeverEnds ==
   /\ marks' = marks \cup {"get_peer_address:wait-never-ends:server-connection-lost"}
   /\ obs' = Rec.snap
   /\ l' = l + 1
-  /\ UNCHANGED <<vars, tid, phase, reported, bReported>>
+  /\ UNCHANGED <<vars, tid, phase, reported, bReported, ret>>
 
 ----------------------------------------------------------------------------
 Done ==
   /\ phase = "stim" /\ l = Len(T) + 1
   /\ PrintT(<<"ACCEPT", tid, marks>>)
   /\ l' = l + 1
-  /\ UNCHANGED <<vars, tid, phase, reported, bReported, obs, marks>>
+  /\ UNCHANGED <<vars, tid, phase, reported, bReported, obs, ret, marks>>
 
 Finished == l = Len(T) + 2 /\ UNCHANGED tvars
 
@@ -211,6 +215,21 @@ NoOrphanConnectionObs ==
   ObservedSettled => /\ NoOrphanConnectionP(pcO, winner, RegOwnObs, LinkOwnObs, EstabObs)
                      /\ Len(obs.reg) = Cardinality(RegOwnObs) /\ Len(obs.links) = Cardinality(LinkOwnObs)
 NoOrphanTaskObs == ObservedSettled => NoOrphanTaskP(obs.tasks)
+
+\* ... and the same at the instant the awaited call returned, raised or was cancelled ("WHEN it returns or
+\* raises, exactly the returned connection remains"): ret is the snapshot the harness took as the first
+\* thing after `await create_peer_connection(...)` ended, before yielding to the loop.
+RegOwnRet == {IF ret.reg[i].inc THEN "p" ELSE "d" : i \in 1..Len(ret.reg)}
+EstabRet == {IF ret.reg[i].inc THEN "p" ELSE "d" :
+               i \in {j \in 1..Len(ret.reg) : ret.reg[j].st = "CONNECTED" /\ ret.reg[j].cs # "AWAITING_INIT"
+                                              /\ ret.reg[j].typ = Hdr.typ /\ ret.reg[j].user = Hdr.user}}
+LinkOwnRet == {IF ret.links[i] = "pierce" THEN "p" ELSE IF ret.links[i] = "direct" THEN "d" ELSE "x" : i \in 1..Len(ret.links)}
+AtReturn == reported /\ pcO \in OTerm
+NoWaiterLeftAtReturn == AtReturn => NoWaiterLeftP(ret.tw, ret.rw)
+NoOrphanConnectionAtReturn ==
+  AtReturn => /\ NoOrphanConnectionP(pcO, winner, RegOwnRet, LinkOwnRet, EstabRet)
+              /\ Len(ret.reg) = Cardinality(RegOwnRet) /\ Len(ret.links) = Cardinality(LinkOwnRet)
+NoOrphanTaskAtReturn == AtReturn => NoOrphanTaskP(ret.tasks)
 
 \* a failed connect-back leaves nothing
 ConnectBackCleanObs == (phase = "stim" /\ pcB = "failed" /\ bReported) => Len(obs.regb) = 0 /\ obs.cblinks = 0
